@@ -115,6 +115,10 @@ func vf41PlainKinds() []vf37Kind {
 		vf37Kind{Name: "describe", Class: "describe", Method: "__describe__", X: 0},
 		vf37Kind{Name: "prod-big", Class: "ok", Method: "prod", Stream: 1, X: 14, In: []string{"t", "t"}, Dispatched: true},
 		vf37Kind{Name: "prod-dblemit", Class: "double-emit", Method: "prod", Stream: 1, X: 11, In: []string{"t", "t"}, Dispatched: true},
+		vf37Kind{Name: "exch2-ok", Class: "ok", Method: "exch2", Stream: 2, X: 6, In: []string{"ab-ok"}, Dispatched: true},
+		vf37Kind{Name: "exch2-col2-castfail", Class: "cast-fail-col2", Method: "exch2", Stream: 2, X: 8, In: []string{"ab-bad"}, Dispatched: true},
+		vf37Kind{Name: "dyn2-ok", Class: "ok", Method: "dyn2", Stream: 2, X: 6, In: []string{"ab-ok"}, Dispatched: true},
+		vf37Kind{Name: "dyn2-col2-castfail", Class: "dyn-cast-fail-col2", Method: "dyn2", Stream: 2, X: 8, In: []string{"ab-bad"}, Dispatched: true},
 		vf37Kind{Name: "exch-emitpanic", Class: "handler-panic", Method: "exch", Stream: 2, X: 3, In: []string{"i"}, Dispatched: true},
 	)
 	return k
